@@ -20,10 +20,12 @@ pub fn run(cfg: &Cfg, stats: &mut Stats) {
 }
 
 fn tsan(cfg: &Cfg, stats: &mut Stats) {
-    let target_dir = "/verif/target/tsan";
+    let root = crate::core::verif_root();
+    let target_dir = root.join("target/tsan").display().to_string();
+    let target_dir = target_dir.as_str();
     let (code, out) = sh(Command::new("cargo")
         .args(["+nightly", "build", "--offline", "-Zbuild-std", "--target", "x86_64-unknown-linux-gnu", "--target-dir", target_dir])
-        .current_dir("/verif/harness")
+        .current_dir(root.join("harness"))
         .env("RUSTFLAGS", "-Zsanitizer=thread")
         .env("CARGO_NET_OFFLINE", "true"));
     if code != Some(0) {
@@ -111,13 +113,15 @@ fn tsan(cfg: &Cfg, stats: &mut Stats) {
 }
 
 fn miri(_cfg: &Cfg, stats: &mut Stats) {
-    let dir = Path::new("/verif/miri-alloc");
+    let root = crate::core::verif_root();
+    let dir = root.join("miri-alloc");
+    let dir = dir.as_path();
     if !dir.exists() {
         stats.inconclusive("miri crate missing");
         return;
     }
     let (code, out) = sh(Command::new("cargo")
-        .args(["+nightly", "miri", "run", "--offline", "--target-dir", "/verif/target/miri"])
+        .args(["+nightly", "miri", "run", "--offline", "--target-dir", root.join("target/miri").to_str().unwrap_or("/verif/target/miri")])
         .current_dir(dir)
         .env("MIRIFLAGS", "-Zmiri-many-seeds=0..16")
         .env("CARGO_NET_OFFLINE", "true"));
